@@ -13,9 +13,10 @@ LEVEL = "exploration"
 RULE = (
     "full product: 15 statuses x 7 message kinds (4 supported + 3 unsupported) x 18 "
     "ExecTypes (17 + the '0' omitted marker) x 15 reported statuses x 2 error modes, "
-    "each passed as enum members and as plain strings; plus can_cancel/can_replace/"
+    "each passed as enum members and as plain strings, each cell called in both orders of the two error modes "
+    "(strict first / lenient first, separate fresh processes) and repeated once (purity); plus can_cancel/can_replace/"
     "is_finished for all 15 statuses. Non-trivial = a cell on which a constraint other "
-    "than 'closed/total' applies; distinct by (spelling, status, kind, exectype, reported)."
+    "than 'closed/total' applies; distinct by (spelling, status, kind, exectype, reported, call order)."
 )
 ASSUMPTIONS = [
     "FOrdStatus / FExecType / FMsg enumerate the whole domain (read from the working tree)",
@@ -70,8 +71,9 @@ def _call(st, kind, et, ms, mode):
         return ("other", f"{type(e).__name__}: {e}")
 
 
-def _cell(acc, form, st_v, kind_v, et_v, ms_v):
-    """Evaluate one cell in both modes; return True if non-trivial."""
+def _cell(acc, form, st_v, kind_v, et_v, ms_v, order="strict-first"):
+    """Evaluate one cell in both modes (in the given order, then once more: the function must be
+    pure); return True if non-trivial."""
     if form == "enum":
         st = S(st_v)
         ms = S(ms_v)
@@ -80,10 +82,19 @@ def _cell(acc, form, st_v, kind_v, et_v, ms_v):
     else:
         st, ms, kind = st_v, ms_v, kind_v
         et = et_v if et_v != "0#" else 0
-    case = {"form": form, "st": st_v, "kind": kind_v, "et": et_v, "ms": ms_v}
-    r1 = _call(st, kind, et, ms, True)
-    r0 = _call(st, kind, et, ms, False)
+    case = {"form": form, "st": st_v, "kind": kind_v, "et": et_v, "ms": ms_v, "order": order}
+    if order == "strict-first":
+        r1 = _call(st, kind, et, ms, True)
+        r0 = _call(st, kind, et, ms, False)
+    else:
+        r0 = _call(st, kind, et, ms, False)
+        r1 = _call(st, kind, et, ms, True)
+    r1b = _call(st, kind, et, ms, True)
+    r0b = _call(st, kind, et, ms, False)
     nontrivial = False
+    if (r1b[0], str(r1b[1])) != (r1[0], str(r1[1])) or (r0b[0], str(r0b[1])) != (r0[0], str(r0[1])):
+        acc.violation(f"C16:purity/result-changes-on-repeat/{kind_v}",
+                      f"same arguments, different results: raise {r1}->{r1b}, noraise {r0}->{r0b}; cell={case}", case)
 
     def bad(sig, why):
         acc.violation(f"C16:{sig}", f"{why}; cell={case} raise->{r1} noraise->{r0}", case)
@@ -157,19 +168,19 @@ def _exectypes():
     return [m.value for m in FExecType] + ["0#"]
 
 
-def sweep(acc, form, kinds):
+def sweep(acc, form, kinds, order="strict-first"):
     sts, ets = _statuses(), _exectypes()
     assert len(sts) == 15 and len(ets) == 18, (len(sts), len(ets))
     for kind_v in kinds:
         for st_v in sts:
             for et_v in ets:
                 for ms_v in sts:
-                    nt = _cell(acc, form, st_v, kind_v, et_v, ms_v)
-                    sig = (form, st_v, kind_v, et_v, ms_v)
+                    nt = _cell(acc, form, st_v, kind_v, et_v, ms_v, order)
+                    sig = (form, st_v, kind_v, et_v, ms_v, order)
                     sample = None
                     if nt and len(acc.samples) < 3 and (hash(sig) % 97 == 0):
                         sample = {"cell": sig}
-                    acc.case(sig if nt else None, cls=f"kind={kind_v}", sample=sample, n=2)
+                    acc.case(sig if nt else None, cls=[f"kind={kind_v}", f"order={order}"], sample=sample, n=4)
     if not acc.samples:
         acc.samples.append({"cell": [form, "0", kinds[0], "F", "2"]})
 
@@ -197,10 +208,13 @@ def predicates(acc):
 
 def plan(tier, seed):
     jobs = []
-    for form in ("enum", "str"):
-        for k in SUPPORTED:
-            jobs.append(("sweep", {"form": form, "kinds": [k]}))
-        jobs.append(("sweep", {"form": form, "kinds": UNSUPPORTED}))
+    # each shard is a fresh process; both call orders, so that state kept between calls (a cache keyed
+    # without the error mode, say) cannot hide behind the order of enumeration
+    for order in ("strict-first", "lenient-first"):
+        for form in ("enum", "str"):
+            for k in SUPPORTED:
+                jobs.append(("sweep", {"form": form, "kinds": [k], "order": order}))
+            jobs.append(("sweep", {"form": form, "kinds": UNSUPPORTED, "order": order}))
     jobs.append(("predicates", {}))
     return jobs
 
@@ -209,4 +223,4 @@ def replay(acc, case):
     if "predicates" in case:
         predicates(acc)
         return
-    _cell(acc, case["form"], case["st"], case["kind"], case["et"], case["ms"])
+    _cell(acc, case["form"], case["st"], case["kind"], case["et"], case["ms"], case.get("order", "strict-first"))
